@@ -43,9 +43,9 @@ func spawn(fn func()) {
 }
 
 // GoN(f, args...) = `go f(args...)`: the arguments are evaluated by the caller, as the go statement does.
-func Go0(f func())                                  { spawn(f) }
-func Go1[A any](f func(A), a A)                     { spawn(func() { f(a) }) }
-func Go2[A, B any](f func(A, B), a A, b B)          { spawn(func() { f(a, b) }) }
+func Go0(f func())                                    { spawn(f) }
+func Go1[A any](f func(A), a A)                       { spawn(func() { f(a) }) }
+func Go2[A, B any](f func(A, B), a A, b B)            { spawn(func() { f(a, b) }) }
 func Go3[A, B, C any](f func(A, B, C), a A, b B, c C) { spawn(func() { f(a, b, c) }) }
 func Go4[A, B, C, D any](f func(A, B, C, D), a A, b B, c C, d D) {
 	spawn(func() { f(a, b, c, d) })
